@@ -59,6 +59,10 @@ class SelectorList(cssutils.util.Base, cssutils.util.ListSeq):
             id(self),
         )
 
+    def __delitem__(self, index):
+        self._checkReadonly()
+        del self.seq[index]
+
     def __setitem__(self, index, newSelector):
         """Overwrite ListSeq.__setitem__
 
